@@ -3,6 +3,7 @@ import enum
 import json
 import logging
 from pathlib import Path, PosixPath, WindowsPath
+import re
 from typing import Any, AnyStr, Callable, IO, List, Optional, Union, cast
 from typing_extensions import Protocol, Type
 
@@ -163,6 +164,25 @@ class Dumper(yaml.SafeDumper):
 
 
 Dumper.add_representer(OrderedDict, Dumper.represent_ordereddict)
+
+# The Loader reads floats the YAML 1.2 way (see Loader.__patch_floats), while
+# PyYAML only knows about YAML 1.1 floats. Strings like '1e5' or '1.5e3' are
+# floats in YAML 1.2 only, so tell the Dumper about those too, or it will
+# write them without quotes and they will be read back as floats.
+Dumper.add_implicit_resolver(
+        'tag:yaml.org,2002:float',
+        re.compile(
+            r'^(?:'
+            r'[-+]?'
+            r'(?:'
+            r'  (?:[0-9]+[eE][-+]?[0-9]+'
+            r'  |[0-9]+\.([eE][-+]?[0-9]+)?'
+            r'  |[0-9]*\.[0-9]+([eE][-+]?[0-9]+)?'
+            r'  )'
+            r'|\.(?:inf|Inf|INF)'
+            r'|\.(?:nan|NaN|NAN)'
+            r'))$', re.X),
+        list('-+0123456789.'))
 Dumper.add_representer(PosixPath, PathRepresenter())
 Dumper.add_representer(WindowsPath, PathRepresenter())
 
